@@ -23,15 +23,35 @@ func IsBuiltinCall(v ssa.Value, name string) (*ssa.Call, bool) {
 // functions that can see it (the allocating function and its closures).
 func StoresTo(addr ssa.Value) []*ssa.Store {
 	var out []*ssa.Store
-	refs := addr.Referrers()
-	if refs == nil {
-		return nil
-	}
-	for _, r := range *refs {
-		if s, ok := r.(*ssa.Store); ok && s.Addr == addr {
-			out = append(out, s)
+	seen := map[ssa.Value]bool{}
+	var rec func(a ssa.Value)
+	rec = func(a ssa.Value) {
+		if seen[a] {
+			return
+		}
+		seen[a] = true
+		refs := a.Referrers()
+		if refs == nil {
+			return
+		}
+		for _, r := range *refs {
+			switch t := r.(type) {
+			case *ssa.Store:
+				if t.Addr == a {
+					out = append(out, t)
+				}
+			case *ssa.MakeClosure:
+				// the cell is captured: stores through the corresponding free variable
+				fn := t.Fn.(*ssa.Function)
+				for i, b := range t.Bindings {
+					if b == a && i < len(fn.FreeVars) {
+						rec(fn.FreeVars[i])
+					}
+				}
+			}
 		}
 	}
+	rec(addr)
 	return out
 }
 
